@@ -653,7 +653,11 @@ class Glob(Generic[AnyStr]):
                                 # Scanning a directory descriptor always yields `str` names.
                                 name = os.fsencode(name)
                             hidden = self._is_hidden(name)
-                            is_dir = f.is_dir()
+                            try:
+                                is_dir = f.is_dir()
+                            except OSError:
+                                # A link that cannot be resolved (one that points to itself) is an entry all the same
+                                is_dir = False
                             if is_dir:
                                 is_link = f.is_symlink()
                             else:
